@@ -117,7 +117,7 @@ class TlcResult:
         m2 = re.search(r"Invariant (\S+) is violated", out)
         self.violated = m2.group(1) if m2 else None
         if self.violated is None:
-            m3 = re.search(r"Action property (\S+) is violated", out) or re.search(r"Temporal properties were violated", out)
+            m3 = re.search(r"Action property (\S+) is violated", out) or re.search(r"Temporal property (\S+) was violated", out) or re.search(r"Temporal properties were violated", out)
             if m3:
                 self.violated = m3.group(1) if m3.lastindex else "TemporalProperty"
         self.postcondition_failed = "postcondition" in out.lower() and ("violated" in out.lower() or "false" in out.lower())
